@@ -427,3 +427,39 @@ func verifC04_HashConc() {
 	}
 	verifCover("concurrent-hash-selection")
 }
+
+// verifC04_DiscoveryOnlyPool: "a request is failed for lack of a server only when the CURRENT
+// list is empty" for a pool that names a service and lists no static servers (validation accepts
+// it): before the registry reports an instance the pool has no server and refuses; once an
+// instance is reported, requests are forwarded to it; when the instances vanish again (no
+// static fallback exists) it refuses again.
+func verifC04_DiscoveryOnlyPool() {
+	vSymbolicRequest = false
+	sp, _ := vPool(0, 0)
+	sp.spec.Servers = nil
+	sp.spec.ServiceName = "orders"
+	sp.spec.ServerTags = []string{"blue"}
+	sp.createLoadBalancer(nil)
+	fnSendRequest = vSend
+	vOutcome = func(attempt int) (*http.Response, error) {
+		return &http.Response{StatusCode: 200, Header: http.Header{}, Body: &vBody{}}, nil
+	}
+	try := func() (string, int) {
+		ctx, _, _ := vClientRequest([]byte{1}, false)
+		vNSends = 0
+		return sp.handle(ctx, false), vNSends
+	}
+	res, sends := try()
+	verifAssert(res != "" && sends == 0, "no-server-no-forwarding")
+	sp.useService(map[string]*serviceregistry.ServiceInstanceSpec{"i0": {InstanceID: "i0", Address: "10.1.0.1", Port: 8000, Tags: []string{"blue"}}})
+	res, sends = try()
+	verifAssert(res == "" && sends == 1, "forwarded-to-the-discovered-instance")
+	verifAssert(len(vSends[0].url) >= 20 && vSends[0].url[:20] == "http://10.1.0.1:8000", "forwarded-to-the-address-of-the-discovered-instance")
+	if verifBool("instancesVanish") {
+		sp.useService(map[string]*serviceregistry.ServiceInstanceSpec{})
+		res, sends = try()
+		verifAssert(res != "" && sends == 0, "no-server-no-forwarding")
+		verifCover("instances-vanished")
+	}
+	verifCover("discovery-only-pool")
+}
